@@ -167,3 +167,31 @@ func VerifC09RejectDeep(depth, l int) {
 	}
 	verifC09Check(append([]byte{1, 0, 0, 1}, inner...), depth, false)
 }
+
+// VerifC09RelayReply: a relay-forward chain `depth` levels deep is decoded and answered the way a
+// server does (NewRelayReplFromRelayForw around a REPLY, then ToBytes): the work a datagram causes
+// this way stays within the same bound as decoding and re-encoding it (a builder that serialised
+// the chain built so far at every level would be cubic in the depth).
+func VerifC09RelayReply(depth int) {
+	inner := append([]byte{1}, verifBytes("xid", 3)...)
+	b := verifRelayChain(depth, inner)
+	n := len(b)
+	a0 := verifAllocBytes()
+	d, err := FromBytes(b)
+	verifAssert(err == nil, "decode-ok")
+	if err != nil {
+		return
+	}
+	rf, isRelay := d.(*RelayMessage)
+	if isRelay {
+		reply := &Message{MessageType: MessageTypeReply}
+		rr, rerr := NewRelayReplFromRelayForw(rf, reply)
+		verifAssert(rerr == nil, "relay-reply-built")
+		if rerr == nil {
+			out := rr.ToBytes()
+			verifAssert(len(out) <= 2*n+64, "reencoded-size-is-a-fixed-multiple-of-the-input")
+		}
+	}
+	verifAssert(verifAllocBytes()-a0 <= 160*n+verifC09AllocPerLevel*n*depth+verifC09AllocConst, "decode-and-reencode-allocation-is-linear-plus-one-copy-per-nesting-level")
+	verifReach("end")
+}
